@@ -454,6 +454,19 @@ _ADD7 = {
     "C18": " Panicking services panic with a string, an error value, nil, or a genuine runtime.Error (nil map write, index out of range).",
     "C20": " Requests may have an empty RemoteAddr and/or RequestURI (in-process requests): their records must carry exactly those (empty) values.",
 }
+# Round 8.
+_ADD8 = {
+    "C13": " A second exhaustive enumeration covers the 12 runes related by ToLower/ToUpper but not by simple folding (i, I, U+0130, U+0131) together with width-changing fold pairs (s/U+017F, k/U+212A, a-ring/U+212B, sharp s/U+1E9E).",
+    "C14": " Duration and HostPort are also round-tripped inside JSON structs, pointers, slices, map values and map keys; every decode is repeated into a receiver that already holds a value.",
+    "C15": " The wrapped reader may have a truthful Len() method and a source that grows after LimitReader was called; a read-all kind drives the limited reader through io.ReadAll, io.Copy, io.CopyBuffer and bufio (which choose their own buffer sizes and look for optional interfaces); writes go through Write, io.WriteString, io.Copy or fmt.Fprint and the underlying writer offers WriteString / ReadFrom.",
+    "C17": " A panic kind lets the constructor panic (or Goexit) for some keys: every other key must still be constructed exactly once and keep its result.",
+    "C18": " The schedule may be time-dependent (next multiple of a grid after its argument), so a schedule consulted with a stale time shows in the timeline.",
+    "C19": " ReplaceAttr comes in four modes (package-helper-like, remove all built-in top-level attributes, remove every attribute so that the text line is empty, rewrite keys and values).",
+    "C20": " The same LogMiddleware instance, or two distinct ones, may be nested in the chain (each level logs its own records).",
+}
+for _pid, _lt in _ADD8.items():
+    PROPS[_pid]["level_text"] += _lt
+
 for _pid, _lt in _ADD7.items():
     PROPS[_pid]["level_text"] += _lt
 PROPS["C08"]["level_note"] = PROPS["C08"]["level_note"].replace("Trusted: Record.UnmarshalText as the per-line oracle (decided separately by C07)", "Trusted: the field-grammar model shared with C07 (netip.ParseAddr + the C03 name model) for the per-line verdict")
